@@ -248,8 +248,13 @@ class Runner:
         canary = [p for p in props if CANARY in p["description"]]
         oblig = [p for p in props if CANARY not in p["description"]]
         unw = [p for p in oblig if p["status"] != "SUCCESS" and "unwinding assertion" in p["description"]]
-        if unw:
+        # a failed unwinding assertion leaves the exploration incomplete: undecided - unless a genuine obligation failed as well
+        # (counterexamples found below the bound are real executions), in which case that failure is reported
+        other_fail = [p for p in oblig if p["status"] == "FAILURE" and "unwinding assertion" not in p["description"]]
+        if unw and not other_fail:
             raise Undecided("unwinding bound %s too small in %s: %s" % (uw, tag, ", ".join(p["property"] for p in unw[:4])))
+        if unw:
+            oblig = [p for p in oblig if p not in unw]
         if not unit.no_canary:
             if not canary:
                 raise Undecided("no canary obligation in %s" % tag)
